@@ -70,7 +70,11 @@ def gen_case(rng, tier, *, semi=False, metrics=None, force_tie_free=False, allow
         if rng.random() < 0.25:
             Q[t] = X[int(rng.integers(0, len(X)))]
     case = {"model": "semi" if semi else "supervised", "metric": metric, "gclass": gc, "pattern": pattern,
-            "X": Xl.tolist(), "Y": Y.tolist(), "U": U.tolist(), "Q": Q.tolist(), "pre": None}
+            "X": Xl.tolist(), "Y": Y.tolist(), "U": U.tolist(), "Q": Q.tolist(), "pre": None, "prefit": None}
+    if rng.random() < 0.15:
+        # history: the SAME model object is first fitted on other data of the same shape (state kept between fits would leak)
+        P = gen.to_domain(gen.make_dataset(rng, n + nU, d, "G1"), kind)
+        case["prefit"] = {"X": P[:n].tolist(), "Y": gen.make_labels(rng, P[:n], "random").tolist(), "U": P[n:].tolist()}
     if allow_pre and rng.random() < 0.25:
         mk = gen.pick(rng, ["M1", "M2", "M3", "M4", "ONES"]) if not force_tie_free else gen.pick(rng, ["M1", "M2"])
         extra = int(rng.integers(1, 8))
@@ -128,6 +132,16 @@ def run_case(case, with_prim_hook=True, with_heap_hooks=True):
         targets.append((mv.SupervisedOPF, "_find_prototypes", None, after_prim))
     if with_heap_hooks:
         targets += hooks.heap_targets()
+    pf = case.get("prefit")
+    if pf:
+        PX, PY = np.array(pf["X"], dtype=float), np.array(pf["Y"], dtype=int)
+        PU = np.array(pf["U"], dtype=float).reshape(-1, PX.shape[1]) if len(pf.get("U") or []) else np.zeros((0, PX.shape[1]))
+        if case["model"] == "semi":
+            o.prefit = safe_call(o.model.fit, PX, PY, PU, None if o.I is None else o.I.copy())
+        else:
+            o.prefit = safe_call(o.model.fit, PX, PY, None if o.I is None else o.I.copy())
+        if o.prefit.ok and len(o.Q):
+            safe_call(o.model.predict, o.Q.copy(), o.IQ.copy()) if o.IQ is not None else safe_call(o.model.predict, o.Q.copy())
     with hooks.patched(rec, targets):
         if case["model"] == "semi":
             o.fit = safe_call(o.model.fit, o.X.copy(), o.Y.copy(), o.U.copy(), None if o.I is None else o.I.copy())
